@@ -12,7 +12,7 @@ partial def evOf : Sexp → Option Ev
   | .list [.atom "s", s] => s.str?.map fun x => .sc (.str x)
   | .list [.atom "b", b] => b.bool?.map fun x => .sc (.bool x)
   | .list [.atom "u"] => some (.sc .null)
-  | .list [.atom "r", n] => n.nat?.map .ref
+  | .list [.atom "r", n] => n.int?.map .ref
   | .list (.atom "a" :: es) => (es.mapM evOf).map .arr
   | .list (.atom "h" :: es) => (es.mapM evOf).map .hsh
   | _ => none
